@@ -590,7 +590,10 @@ func paramsFlowingInto(fn *ssa.Function, v ssa.Value) map[*ssa.Parameter]bool {
 	return out
 }
 
-func c06memoKeys(c *Ctx, r *Result) {
+func c06memoKeys(c *Ctx, r *Result) { memoKeyRule(c, r, "C06.7") }
+
+// memoKeyRule: every map-valued cache of the root package is keyed by everything its values are built from.
+func memoKeyRule(c *Ctx, r *Result, rule string) {
 	n := 0
 	for _, fn := range c.LibFuncs() {
 		if shortPkg(fnPkgPath(fn)) != "hdf5" {
@@ -624,13 +627,13 @@ func c06memoKeys(c *Ctx, r *Result) {
 				missing = append(missing, p.Name())
 			}
 			sort.Strings(missing)
-			r.Check(len(missing) == 0, "C06.7", c.Name(fn)+"#"+k+"#key-covers-value", c.InstrPos(mu), "the value stored in "+k+" is built from parameter(s) "+strings.Join(missing, ", ")+" that the key does not contain: a later look-up with the same key but a different "+strings.Join(missing, "/")+" gets the first caller's object")
+			r.Check(len(missing) == 0, rule, c.Name(fn)+"#"+k+"#key-covers-value", c.InstrPos(mu), "the value stored in "+k+" is built from parameter(s) "+strings.Join(missing, ", ")+" that the key does not contain: a later look-up with the same key but a different "+strings.Join(missing, "/")+" gets the first caller's object")
 		})
 	}
 	if n < 1 {
-		r.Errorf("C06.7: no map-valued cache or registry update found in package hdf5")
+		r.Errorf(rule+": no map-valued cache or registry update found in package hdf5")
 	}
-	r.Floor("C06.7", 1)
+	r.Floor(rule, 1)
 }
 
 func c06everyChunkCopied(c *Ctx, r *Result) {
